@@ -23,20 +23,22 @@ type level struct {
 	n        int
 	maxKids  int
 	maxEdges int
+	kinds    []string
 }
 
 func levels(tier string) []level {
 	ls := []level{
-		{"size1", 1, 2, 2},
-		{"size2", 2, 2, 4},
-		{"size3(<=2 edges)", 3, 2, 2},
-		{"size3(3 edges)", 3, 2, 3},
+		{"size1", 1, 2, 2, allKinds},
+		{"size2", 2, 2, 4, allKinds},
+		{"size3(<=2 edges)", 3, 2, 2, coreAndEmptyKinds},
+		{"size3(3 edges)", 3, 2, 3, coreKinds},
 	}
 	if tier == "thorough" {
 		ls = append(ls,
-			level{"size3(4..6 edges, <=2 kids per node)", 3, 2, 6},
-			level{"size4(<=3 edges)", 4, 2, 3},
-			level{"size4(4 edges)", 4, 2, 4})
+			level{"size3(3 edges, with never-populated and cleared containers)", 3, 2, 3, allKinds},
+			level{"size3(4..6 edges, <=2 kids per node)", 3, 2, 6, coreKinds},
+			level{"size4(<=3 edges)", 4, 2, 3, coreKinds},
+			level{"size4(4 edges)", 4, 2, 4, coreKinds})
 	}
 	return ls
 }
@@ -99,13 +101,16 @@ func worker(c *fw.Ctx) *fw.Stats {
 	for _, lv := range levels(c.Tier) {
 		cut := false
 		var total int64
-		enumGraphs(lv.n, lv.maxKids, lv.maxEdges, func(g *Graph) {
+		enumGraphs(lv.n, lv.maxKids, lv.maxEdges, lv.kinds, func(g *Graph) {
 			// a level that extends an earlier one skips what that one covered
 			if (lv.name == "size3(4..6 edges, <=2 kids per node)" || lv.name == "size4(4 edges)") && g.edges() <= 3 {
 				return
 			}
 			if lv.name == "size3(3 edges)" && g.edges() <= 2 {
 				return
+			}
+			if lv.name == "size3(3 edges, with never-populated and cleared containers)" && !g.hasLeafKind() {
+				return // covered by the core-kind levels
 			}
 			idx++
 			total++
@@ -175,6 +180,8 @@ func flushCounters(st *fw.Stats, cn *counters) {
 	st.Count("mutator_attempts(pair changes a mutable twin)", cn.mutatorAttempts)
 	st.Count("non_mutating_attempts", cn.reads)
 	st.Count("mutations_of_unreachable_values_checked_to_succeed", cn.unreachableMutations)
+	st.Count("values_created_by_operations_then_mutated", cn.derivedValues)
+	st.Count("mutations_of_created_values_checked_against_frozen_state", cn.derivedMutations)
 	st.Count("twin_discovery_runs", cn.twinRuns)
 	st.Count("recovered_panics_in_operations(C02 subject)", cn.panics)
 	for _, k := range sortedInt64(cn.opsByKind) {
